@@ -96,8 +96,8 @@ def spell_int(rng, v, allow=("int", "float", "dec", "hex")):
         return str(v), how
     if how == "float":
         k = rng.randrange(3)
-        if k == 0:
-            return "%d.0" % v, how
+        if k == 0 or v >= 10 ** 12:  # keep the written significand within 15 digits (longer ones: finding K1 of C13)
+            return "%d.0" % v if v < 10 ** 14 else "%de0" % v, how
         if k == 1:
             return "%d.000e0" % v, how
         s = str(v)
